@@ -948,6 +948,12 @@ func DeleteHistoricVersions(ctx context.Context, s *DB, before time.Time) error 
 		if err != nil {
 			return fmt.Errorf("delete node: %s: %w", l, err)
 		}
+		// mast also uses the node cache to skip storing nodes it believes are
+		// persisted: forget the node that is gone, or a tree that returns to this
+		// content would be committed with a link to a missing object
+		if c, ok := s.cfg.NodeCache.(interface{ Remove(key interface{}) }); ok {
+			c.Remove(fmt.Sprintf("%s/%s", s.persist.NodeURLPrefix(), l))
+		}
 	}
 	for _, l := range roots {
 		_, err := s.s3Client.DeleteObjectWithContext(ctx, &s3.DeleteObjectInput{
